@@ -265,7 +265,7 @@ def c10(prog, obs, impl):
                             e = sum((c['cont'].get(s, F(0)) for s in some if [q for q in subs if q['id'] == s][0]['kind'] != 'Enzyme'), F(0)) * scale
                             if abs(F(float(x)) - e) > F(10) ** (-prec) * F(51, 100) + abs(e) * F(1, 10**9):
                                 fails.append((i, f"Plate.get_moles({some}, unit={unit!r}) reports {x}, the well holds {float(e)!r} {unit} of them together"))
-                if {impl.byname[s.name] for s in sset} != exp:
+                if {dsl.sid_of(impl, s) for s in sset} != exp:
                     fails.append((i, "Plate.get_substances differs from the union of the wells' contents"))
                 for sid in list(exp)[:2]:
                     sd = [s for s in subs if s['id'] == sid][0]
